@@ -220,6 +220,7 @@ func runC13(c *Ctx) {
 
 	// ================= R4 =================
 	x.findDispatch()
+	x.lookupBounds()
 }
 
 // pairing checks the sibling-link idioms of one function.
@@ -897,4 +898,79 @@ func hasFactAnywhere(g *IG, pred func(Fact) bool) bool {
 		}
 	}
 	return false
+}
+
+// C13.R5: the name lookups never index their path expression (or an object's
+// name) out of range: every element access and re-slicing of the expr argument
+// in ObjectTree.Find and findRelative is proved in range from the tests that
+// dominate it.
+func (x *c13) lookupBounds() {
+	c, m := x.c, x.m
+	c.floor("C13.R5", 6)
+	const aml = "device/acpi/aml"
+	for _, name := range []string{"Find", "findRelative"} {
+		fn := m.lookupMethod(aml, "ObjectTree", name)
+		if fn == nil {
+			c.unresolved("C13.R5", "ObjectTree."+name)
+			continue
+		}
+		exprP := paramNamed(fn, "expr")
+		if exprP == nil {
+			for _, p := range fn.Params {
+				if sl, ok := p.Type().Underlying().(*types.Slice); ok {
+					if bt, ok := sl.Elem().Underlying().(*types.Basic); ok && bt.Kind() == types.Uint8 {
+						exprP = p
+					}
+				}
+			}
+		}
+		if exprP == nil {
+			c.undecided("C13.R5", "lookup-index-bounds "+m.fnName(fn), "no byte-slice path parameter")
+			continue
+		}
+		g := newIG(m, fn, nil)
+		z := &Polyizer{Atom: func(v ssa.Value) string {
+			if call, ok := v.(*ssa.Call); ok {
+				if bi, ok := call.Common().Value.(*ssa.Builtin); ok && bi.Name() == "len" && call.Common().Args[0] == ssa.Value(exprP) {
+					return "len(expr)"
+				}
+			}
+			return ""
+		}}
+		isBase := func(v ssa.Value) bool {
+			if v == ssa.Value(exprP) {
+				return true
+			}
+			// the fixed-size name of an object
+			if pt, ok := v.Type().Underlying().(*types.Pointer); ok {
+				if _, isArr := pt.Elem().Underlying().(*types.Array); isArr {
+					if fa, ok := v.(*ssa.FieldAddr); ok {
+						_, f, _ := fieldOfAddr(fa)
+						return f != nil && f.Name() == "name"
+					}
+				}
+			}
+			return false
+		}
+		lenOf := func(v ssa.Value) (Poly, bool) {
+			if v == ssa.Value(exprP) {
+				return polyAtom("len(expr)"), true
+			}
+			if pt, ok := v.Type().Underlying().(*types.Pointer); ok {
+				if at, ok := pt.Elem().Underlying().(*types.Array); ok {
+					return polyConst(at.Len()), true
+				}
+			}
+			return nil, false
+		}
+		seq := 0
+		for _, o := range g.indexObligations(z, isBase, lenOf) {
+			key := fmt.Sprintf("lookup-index-bounds %s #%d", m.fnName(fn), seq)
+			seq++
+			c.check(o.ok, "C13.R5", key, o.what+": in range by the dominating tests", "a path expression (or name) access is not proved in range ("+o.what+"): a truncated or malformed name makes the lookup panic instead of failing", g.posOf(o.n))
+		}
+		if seq == 0 {
+			c.fail("C13.R5", "lookup-index-bounds "+m.fnName(fn), "no access of the path expression found (rule shape lost)", m.pos(fn.Pos()))
+		}
+	}
 }
